@@ -43,7 +43,9 @@ def observe_script(s):
         k, v = call(fn)
         pred[name] = bool(v) if k == "ret" and isinstance(v, (bool, int)) else "exc:" + type(v).__name__
     so = {}
-    for name, acc in (("legacy", False), ("accurate", True)):
+    # the two counts asked in either order, on the same object (first answer must not colour the second)
+    order = (("legacy", False), ("accurate", True)) if (len(s) + (s[0] if s else 0)) % 2 == 0 else (("accurate", True), ("legacy", False))
+    for name, acc in order + order:
         k, v = call(sc.GetSigOpCount, acc)
         so[name] = {"k": "ret", "v": int(v)} if k == "ret" else dict(exc_info(v), k="exc")
     return {"raw": rawo, "iter": it, "pred": pred, "sigops": so}
